@@ -12,6 +12,7 @@ import (
 	"path/filepath"
 	"reflect"
 	"regexp"
+	"sort"
 	"strconv"
 	"strings"
 	"testing"
@@ -124,67 +125,115 @@ func TestIntegerByteOrder(t *testing.T) {
 }
 
 // ---- count fields (not markable: they are derived) are judged through the buffer they count --------------
+//
+// The structure is encoded twice, with the described buffer 0x0102 and 0x0201 bytes (or list elements)
+// long and everything else equal (smbgen.CountSlot). The parameter bytes that differ between the two
+// encodings are the count field's slot - found by position, not by searching for the value, which also
+// matches the byte count of the data block - and their content is compared with the little-endian
+// image of 0x0102. A 4-byte count shows only its two low-order bytes this way (no buffer reaches
+// 65536 bytes); they are judged the same way. 8-bit counts have no byte order. A relation that
+// cannot be exercised is counted and named in the notes.
 
 type countCase struct {
-	Struct string `json:"struct"`
-	Count  string `json:"count_field"`
-	Buffer string `json:"buffer"`
-	Len    int    `json:"len"`
+	Struct string                     `json:"struct"`
+	Count  string                     `json:"count_field"`
+	Buffer string                     `json:"buffer"`
+	Fields map[string]json.RawMessage `json:"fields"`
 }
 
-// a buffer of n bytes vs n+1 bytes: exactly the count field's slot changes (plus the appended byte);
-// with n = 0x0102-like values the low and high byte are told apart
-func checkCountOrder(c countCase) []vf.Finding {
-	e, _ := smbgen.ByName(c.Struct)
-	mk := func(n int) ([]byte, error) {
-		cmd := smbgen.New(e)
-		smbgen.ApplyRelations(cmd)
-		rv := reflect.ValueOf(cmd).Elem()
-		buf := rv.FieldByName(strings.Split(c.Buffer, ".")[0])
-		if strings.Contains(c.Buffer, ".") {
-			buf = buf.FieldByName("Buffer")
+func countVerdict(c countCase) (fs []vf.Finding, status string) {
+	e, ok := smbgen.ByName(c.Struct)
+	if !ok {
+		return []vf.Finding{vf.F("harness", "bad-case", "unknown structure %s", c.Struct)}, "bad-case"
+	}
+	var rel *smbgen.Relation
+	for i, r := range smbgen.Relations[c.Struct] {
+		if r.Count == c.Count && r.Buffer == c.Buffer {
+			rel = &smbgen.Relations[c.Struct][i]
 		}
-		if buf.Kind() != reflect.Slice || buf.Type().Elem().Kind() != reflect.Uint8 {
-			return nil, fmt.Errorf("not a byte buffer")
-		}
-		buf.SetBytes(bytes.Repeat([]byte{0x41}, n))
-		smbgen.ApplyRelations(cmd)
-		return cmd.Marshal()
 	}
-	a, err := mk(c.Len)
-	if err != nil {
-		return nil
+	if rel == nil {
+		return []vf.Finding{vf.F("harness", "bad-case", "no relation %s.%s", c.Struct, c.Count)}, "bad-case"
 	}
-	cf, _ := reflect.TypeOf(smbgen.New(e)).Elem().FieldByName(c.Count)
-	w := smbgen.FixedWidth(cf.Type)
-	if w < 2 {
-		return nil
+	cl := smbgen.CountSlot(e, c.Fields, *rel)
+	if cl.Problem != "" {
+		return nil, "not-exercised: " + cl.Problem
 	}
-	le := make([]byte, w)
-	for i := 0; i < w; i++ {
-		le[i] = byte(c.Len >> (8 * uint(i)))
+	if cl.TypeWidth < 2 {
+		return nil, "8-bit"
 	}
-	if bytes.Contains(a[:min(len(a), 80)], le) {
-		return nil
+	subject := c.Struct + "." + c.Count
+	if cl.Width > cl.TypeWidth {
+		return []vf.Finding{vf.F(subject, "wrong-width", "%d parameter bytes change with the length of %s, the count is a %d-byte type", cl.Width, c.Buffer, cl.TypeWidth)}, "judged"
 	}
-	if bytes.Contains(a[:min(len(a), 80)], reversedPerElement(le, w)) {
-		return []vf.Finding{vf.F(c.Struct+"."+c.Count, "byte-reversed-in-own-slot", "count %#x of %s emitted big-endian", c.Len, c.Buffer)}
+	le := make([]byte, cl.TypeWidth)
+	for i := range le {
+		le[i] = byte(cl.N1 >> (8 * uint(i)))
 	}
-	return []vf.Finding{vf.F(c.Struct+"."+c.Count, "count-not-found-in-encoding", "count %#x of %s", c.Len, c.Buffer)}
+	// the bytes that can change are the low-order ones: the first cl.Width bytes of the little-endian image
+	got, want := cl.Enc[cl.Start:cl.Start+cl.Width], le[:cl.Width]
+	if cl.Width < 2 {
+		return nil, "not-exercised: one changing byte"
+	}
+	if bytes.Equal(got, want) {
+		return nil, "judged"
+	}
+	if bytes.Equal(got, reversedPerElement(want, cl.Width)) {
+		return []vf.Finding{vf.F(subject, "byte-reversed-in-own-slot", "count %#x of %s emitted big-endian (%x at %d)", cl.N1, c.Buffer, got, cl.Start)}, "judged"
+	}
+	return []vf.Finding{vf.F(subject, "other-encoding", "count %#x of %s emitted as %x at %d, MS-CIFS little-endian is %x", cl.N1, c.Buffer, got, cl.Start, want)}, "judged"
 }
 
 func TestCountFieldByteOrder(t *testing.T) {
 	s := vf.Begin(t, P, "count-fields")
-	s.SetExhaustive()
-	vf.Enum(s, func(yield func(countCase)) {
-		for _, n := range smbgen.Names() {
-			for _, r := range smbgen.Relations[n] {
-				for _, l := range []int{0x0102, 0x0203, 0x01FE} {
-					yield(countCase{n, r.Count, r.Buffer, l})
-				}
-			}
+	type rel struct{ name, count, buffer string }
+	var rels []rel
+	for _, n := range smbgen.Names() {
+		for _, r := range smbgen.Relations[n] {
+			rels = append(rels, rel{n, r.Count, r.Buffer})
 		}
-	}, checkCountOrder, nil)
+	}
+	per := vf.N(3, 40)
+	idx := 0
+	status := map[string]string{}
+	judged := 0
+	vf.Rapid(s, len(rels)*per, func(t *rapid.T) countCase {
+		r := rels[(idx/per)%len(rels)]
+		idx++
+		e, _ := smbgen.ByName(r.name)
+		cmd := smbgen.New(e)
+		smbgen.Fill(t, cmd, smbgen.Options{MaxBytes: 8, MinElems: 1})
+		return countCase{r.name, r.count, r.buffer, smbgen.Snapshot(cmd)}
+	}, func(c countCase) []vf.Finding {
+		fs, st := countVerdict(c)
+		k := c.Struct + "." + c.Count
+		if st == "judged" {
+			judged++
+		}
+		if status[k] != "judged" {
+			status[k] = st
+		}
+		s.Class(strings.SplitN(st, ":", 2)[0])
+		return fs
+	}, func(c countCase) bool { return true })
+	var keys []string
+	for k := range status {
+		keys = append(keys, k)
+	}
+	sort.Strings(keys)
+	var eight, not []string
+	for _, k := range keys {
+		switch {
+		case status[k] == "8-bit":
+			eight = append(eight, k)
+		case status[k] != "judged":
+			not = append(not, k+" ("+status[k]+")")
+		}
+	}
+	s.Note("%d count relations; 8-bit counts (no byte order): %v; relations that could not be exercised: %v", len(rels), eight, not)
+	if judged == 0 && !t.Failed() && os.Getenv("VERIF_REPLAY") == "" {
+		t.Fatalf("INFRA: no count relation could be exercised")
+	}
 }
 
 // ---- AndX block layout --------------------------------------------------------------------------------------
@@ -285,11 +334,11 @@ func checkDialects(c dialectCase) []vf.Finding {
 		}
 		fs = append(fs, vf.F("Dialects.Marshal", kind, "%d dialects: got %q want %q", len(c.Dialects), got, want))
 	}
-	// the decoder must accept the MS-CIFS encoding
-	if len(c.Dialects) > 0 {
+	// the decoder must accept the MS-CIFS encoding (of zero dialects too: no bytes)
+	{
 		back := dialects.NewDialects()
 		n, err := back.Unmarshal(append([]byte{}, want...))
-		if err != nil || !reflect.DeepEqual(back.Dialects, c.Dialects) {
+		if err != nil || len(back.Dialects) != len(c.Dialects) || (len(c.Dialects) > 0 && !reflect.DeepEqual(back.Dialects, c.Dialects)) {
 			fs = append(fs, vf.F("Dialects.Unmarshal", "ms-cifs-dialect-list-misread", "%q -> %q (err %v)", want, back.Dialects, err))
 		} else if n != len(want) {
 			fs = append(fs, vf.F("Dialects.Unmarshal", "consumed-differs", "n=%d want %d", n, len(want)))
@@ -391,6 +440,253 @@ func TestHeaderLittleEndian(t *testing.T) {
 	}, checkHeaderLE, func(c hdrCase) bool { return true })
 }
 
+// ---- decode direction: the decoders accept reference bytes ------------------------------------------------------
+//
+// Commands: marking gives the slot of a fixed-width field in a valid encoding; writing the little-endian
+// image of a pattern into that slot yields the bytes an MS-CIFS encoder produces for "this assignment
+// with the pattern in that field". Decoding them must put the pattern's value into the field. (An
+// encoder and a decoder that are both big-endian round-trip; only this direction shows the decoder.)
+// A structure that cannot decode even its own encoding is C04's finding and is not judged here.
+
+func safeUnmarshal(c smbgen.Cmd, b []byte) (err error) {
+	defer func() {
+		if r := recover(); r != nil {
+			err = fmt.Errorf("panic: %v", r)
+		}
+	}()
+	_, err = c.Unmarshal(b)
+	return err
+}
+
+func decodeRefVerdict(c markCase) ([]vf.Finding, string) {
+	e, ok := smbgen.ByName(c.Struct)
+	if !ok {
+		return []vf.Finding{vf.F("harness", "bad-case", "unknown structure %s", c.Struct)}, "bad-case"
+	}
+	subject := c.Struct + "." + c.Field
+	sl := smbgen.Mark(e, c.Fields, c.Field, c.Pattern)
+	if sl.ProblemKind != "" || sl.Width != sl.TypeWidth {
+		return nil, "no-slot" // no well-defined slot to write into (C04 slot-locality / C05 encode-vs-ref report that)
+	}
+	own := smbgen.New(e)
+	if err := safeUnmarshal(own, append([]byte{}, sl.Enc...)); err != nil {
+		return nil, "own-encoding-not-decodable"
+	}
+	// what the encoder wrote for the pattern must at least come back from the decoder; a field that does
+	// not round-trip (decoded from another place, never decoded) is C04's finding, not a matter of encoding rules
+	if !bytes.Equal(smbgen.PatternOf(reflect.ValueOf(own).Elem().FieldByName(c.Field)), sl.LE) {
+		return nil, "field-does-not-round-trip"
+	}
+	ref := append([]byte{}, sl.Enc...)
+	copy(ref[sl.Start:], sl.LE)
+	dec := smbgen.New(e)
+	if err := safeUnmarshal(dec, ref); err != nil {
+		return []vf.Finding{vf.F(subject, "reference-encoding-rejected", "little-endian image %x in the field's slot [%d,+%d): %v", sl.LE, sl.Start, sl.Width, err)}, "judged"
+	}
+	fv := reflect.ValueOf(dec).Elem().FieldByName(c.Field)
+	got := smbgen.PatternOf(fv)
+	if bytes.Equal(got, sl.LE) {
+		return nil, "judged"
+	}
+	if bytes.Equal(got, reversedPerElement(sl.LE, elemWidth(fv.Type()))) {
+		return []vf.Finding{vf.F(subject, "byte-reversed-in-own-slot", "slot bytes %x decoded as the value whose little-endian image is %x", sl.LE, got)}, "judged"
+	}
+	return []vf.Finding{vf.F(subject, "other-decoding", "slot bytes %x decoded as the value whose little-endian image is %x", sl.LE, got)}, "judged"
+}
+
+func TestDecodeVsRef(t *testing.T) {
+	s := vf.Begin(t, P, "decode-vs-ref")
+	ff := fixedFields()
+	per := vf.N(3, 50)
+	idx := 0
+	vf.Rapid(s, len(ff)*per, func(t *rapid.T) markCase {
+		sf := ff[(idx/per)%len(ff)]
+		idx++
+		e, _ := smbgen.ByName(sf[0])
+		cmd := smbgen.New(e)
+		smbgen.Fill(t, cmd, smbgen.Options{MaxBytes: 12, DistinctBytes: true})
+		return markCase{sf[0], smbgen.Snapshot(cmd), sf[1], rapid.SliceOfNDistinct(rapid.ByteRange(1, 254), 32, 32, rapid.ID[byte]).Draw(t, "pattern")}
+	}, func(c markCase) []vf.Finding {
+		fs, st := decodeRefVerdict(c)
+		s.Class(st)
+		return fs
+	}, func(c markCase) bool {
+		e, _ := smbgen.ByName(c.Struct)
+		f, _ := reflect.TypeOf(smbgen.New(e)).Elem().FieldByName(c.Field)
+		return elemWidth(f.Type) >= 2
+	})
+}
+
+// Header, buffer-format strings, the AndX block and the wire types below the commands: reference bytes
+// written by the harness (MS-CIFS layouts, little-endian) are decoded and the fields compared.
+
+type refCase struct {
+	Kind    string `json:"kind"` // "Header", "SMB_STRING/0N", "AndX", "SMB_DATE", "SMB_FILE_ATTRIBUTES", "<Type>.<Field>"
+	Pattern vf.Hex `json:"pattern"`
+}
+
+func le16(b []byte) uint16 { return uint16(b[0]) | uint16(b[1])<<8 }
+func le32(b []byte) uint32 {
+	return uint32(b[0]) | uint32(b[1])<<8 | uint32(b[2])<<16 | uint32(b[3])<<24
+}
+
+func decodedInt(subject string, got, want uint64, w int) []vf.Finding {
+	if got == want {
+		return nil
+	}
+	var rev uint64
+	for i := 0; i < w; i++ {
+		rev = rev<<8 | (want>>(8*uint(i)))&0xFF
+	}
+	if got == rev && w >= 2 {
+		return []vf.Finding{vf.F(subject, "byte-reversed-in-own-slot", "little-endian bytes of %#x decoded as %#x", want, got)}
+	}
+	return []vf.Finding{vf.F(subject, "other-decoding", "little-endian bytes of %#x decoded as %#x", want, got)}
+}
+
+func checkDecodeRefTypes(c refCase) []vf.Finding {
+	p := c.Pattern
+	switch {
+	case c.Kind == "Header":
+		// MS-CIFS 2.2.3.1: Protocol(4) Command(1) Status(4) Flags(1) Flags2(2) PIDHigh(2) SecurityFeatures(8) Reserved(2) TID(2) PIDLow(2) UID(2) MID(2)
+		ref := append([]byte{0xFF, 'S', 'M', 'B'}, p[:28]...)
+		h := header.NewHeader()
+		n, err := h.Unmarshal(append([]byte{}, ref...))
+		if err != nil || n != 32 {
+			return []vf.Finding{vf.F("Header.Unmarshal", "reference-encoding-rejected", "n=%d err=%v", n, err)}
+		}
+		var fs []vf.Finding
+		fs = append(fs, decodedInt("Header.Command", uint64(h.Command), uint64(p[0]), 1)...)
+		fs = append(fs, decodedInt("Header.Status", uint64(h.Status), uint64(le32(p[1:])), 4)...)
+		fs = append(fs, decodedInt("Header.Flags", uint64(h.Flags), uint64(p[5]), 1)...)
+		fs = append(fs, decodedInt("Header.Flags2", uint64(h.Flags2), uint64(le16(p[6:])), 2)...)
+		fs = append(fs, decodedInt("Header.PIDHigh", uint64(h.PIDHigh), uint64(le16(p[8:])), 2)...)
+		if sec, err := h.SecurityFeatures.Marshal(); err != nil || !bytes.Equal(sec, p[10:18]) {
+			fs = append(fs, vf.F("Header.SecurityFeatures", "other-decoding", "bytes %x decoded as %x (err %v)", []byte(p[10:18]), sec, err))
+		}
+		fs = append(fs, decodedInt("Header.Reserved", uint64(h.Reserved), uint64(le16(p[18:])), 2)...)
+		fs = append(fs, decodedInt("Header.TID", uint64(h.TID), uint64(le16(p[20:])), 2)...)
+		fs = append(fs, decodedInt("Header.PIDLow", uint64(h.PIDLow), uint64(le16(p[22:])), 2)...)
+		fs = append(fs, decodedInt("Header.UID", uint64(h.UID), uint64(le16(p[24:])), 2)...)
+		fs = append(fs, decodedInt("Header.MID", uint64(h.MID), uint64(le16(p[26:])), 2)...)
+		return fs
+	case strings.HasPrefix(c.Kind, "SMB_STRING/"):
+		f := c.Kind[len(c.Kind)-1] - '0'
+		content := p
+		ref := refString(f, content)
+		d := &types.SMB_STRING{}
+		n, err := d.Unmarshal(append([]byte{}, ref...))
+		subject := c.Kind + ".Unmarshal"
+		if err != nil {
+			return []vf.Finding{vf.F(subject, "reference-encoding-rejected", "%d content bytes: %v", len(content), err)}
+		}
+		if d.BufferFormat != f || int(d.Length) != len(content) || !bytes.Equal(d.Buffer, content) || n != len(ref) {
+			kind := "other-decoding"
+			if len(content) >= 256 && int(d.Length) == len(content)>>8|len(content)&0xFF<<8 {
+				kind = "byte-reversed-in-own-slot"
+			}
+			return []vf.Finding{vf.F(subject, kind, "reference string of %d bytes decoded as format %#x length %d, %d bytes, consumed %d of %d", len(content), d.BufferFormat, d.Length, len(d.Buffer), n, len(ref))}
+		}
+		return nil
+	case c.Kind == "AndX":
+		a := andx.NewAndX()
+		if n, err := a.Unmarshal(append([]byte{}, p[:4]...)); err != nil || n != 4 {
+			return []vf.Finding{vf.F("AndX.Unmarshal", "reference-encoding-rejected", "n=%d err=%v", n, err)}
+		}
+		var fs []vf.Finding
+		fs = append(fs, decodedInt("AndX.AndXCommand", uint64(a.AndXCommand), uint64(p[0]), 1)...)
+		fs = append(fs, decodedInt("AndX.AndXReserved", uint64(a.AndXReserved), uint64(p[1]), 1)...)
+		fs = append(fs, decodedInt("AndX.AndXOffset", uint64(a.AndXOffset), uint64(le16(p[2:])), 2)...)
+		return fs
+	case c.Kind == "SMB_DATE":
+		d := types.NewSMB_DATE()
+		if n, err := d.Unmarshal(append([]byte{}, p[:2]...)); err != nil || n != 2 {
+			return []vf.Finding{vf.F("SMB_DATE.Unmarshal", "reference-encoding-rejected", "n=%d err=%v", n, err)}
+		}
+		w := le16(p)
+		got := (uint16(d.Year)-1980)<<9 | uint16(d.Month)&0xF<<5 | uint16(d.Day)&0x1F
+		return decodedInt("SMB_DATE", uint64(got), uint64(w), 2)
+	case c.Kind == "SMB_FILE_ATTRIBUTES":
+		d := &types.SMB_FILE_ATTRIBUTES{}
+		if n, err := d.Unmarshal(append([]byte{}, p[:2]...)); err != nil || n != 2 {
+			return []vf.Finding{vf.F("SMB_FILE_ATTRIBUTES.Unmarshal", "reference-encoding-rejected", "n=%d err=%v", n, err)}
+		}
+		return decodedInt("SMB_FILE_ATTRIBUTES.Attributes", uint64(d.Attributes), uint64(le16(p)), 2)
+	}
+	// a member of a wire type: find its slot by marking the encoder, write the little-endian image, decode
+	parts := strings.SplitN(c.Kind, ".", 2)
+	var nt *nestedType
+	for i, t := range nestedTypes() {
+		if t.name == parts[0] {
+			nt = &nestedTypes()[i]
+		}
+	}
+	if nt == nil || len(parts) != 2 {
+		return []vf.Finding{vf.F("harness", "bad-case", "unknown kind %s", c.Kind)}
+	}
+	lo, w, e1, fs := markNested(*nt, parts[1], p)
+	if fs != nil || lo < 0 {
+		return nil // the encoder side has no well-defined slot: nested-integers reports that
+	}
+	ref := append([]byte{}, e1...)
+	copy(ref[lo:], p[:w])
+	d := nt.mk()
+	if _, err := unmarshalAny(d, ref); err != nil {
+		return []vf.Finding{vf.F(c.Kind, "reference-encoding-rejected", "%v", err)}
+	}
+	fv := reflect.ValueOf(d).Elem().FieldByName(parts[1])
+	got := smbgen.PatternOf(fv)
+	if bytes.Equal(got, p[:w]) {
+		return nil
+	}
+	if bytes.Equal(got, reversedPerElement(p[:w], elemWidth(fv.Type()))) {
+		return []vf.Finding{vf.F(c.Kind, "byte-reversed-in-own-slot", "slot bytes %x decoded as the value whose little-endian image is %x", []byte(p[:w]), got)}
+	}
+	return []vf.Finding{vf.F(c.Kind, "other-decoding", "slot bytes %x decoded as the value whose little-endian image is %x", []byte(p[:w]), got)}
+}
+
+func refString(f uint8, content []byte) []byte {
+	l := []byte{byte(len(content)), byte(len(content) >> 8)}
+	switch f {
+	case 1, 5:
+		return append(append([]byte{f}, l...), content...)
+	case 3:
+		return append(append(append([]byte{f}, l...), content...), 0)
+	}
+	return append(append([]byte{f}, content...), 0)
+}
+
+func unmarshalAny(v interface{}, b []byte) (n int, err error) {
+	defer func() {
+		if r := recover(); r != nil {
+			err = fmt.Errorf("panic: %v", r)
+		}
+	}()
+	return v.(interface{ Unmarshal([]byte) (int, error) }).Unmarshal(b)
+}
+
+func TestDecodeVsRefTypes(t *testing.T) {
+	s := vf.Begin(t, P, "decode-vs-ref-types")
+	kinds := []string{"Header", "SMB_STRING/01", "SMB_STRING/02", "SMB_STRING/03", "SMB_STRING/04", "SMB_STRING/05", "AndX", "SMB_DATE", "SMB_FILE_ATTRIBUTES"}
+	for _, nt := range nestedTypes() {
+		for _, f := range markableFields(reflect.ValueOf(nt.mk()).Elem()) {
+			kinds = append(kinds, nt.name+"."+f)
+		}
+	}
+	s.Note("%d decoder targets: %v", len(kinds), kinds)
+	per := vf.N(60, 1000)
+	idx := 0
+	vf.Rapid(s, len(kinds)*per, func(t *rapid.T) refCase {
+		k := kinds[(idx/per)%len(kinds)]
+		idx++
+		if strings.HasPrefix(k, "SMB_STRING/") {
+			n := rapid.SampledFrom([]int{0, 1, 2, 255, 256, 258, 300, 513}).Draw(t, "len")
+			return refCase{k, rapid.SliceOfN(rapid.ByteRange(1, 255), n, n).Draw(t, "content")}
+		}
+		return refCase{k, rapid.SliceOfNDistinct(rapid.ByteRange(1, 254), 28, 28, rapid.ID[byte]).Draw(t, "pattern")}
+	}, checkDecodeRefTypes, func(c refCase) bool { return !strings.HasPrefix(c.Kind, "SMB_STRING/") || len(c.Pattern) >= 256 })
+}
+
 // ---- declared widths vs the "(N bytes)" sizes MS-CIFS gives (quoted in the source's field comments) ----------------
 
 type widthCase struct {
@@ -489,6 +785,139 @@ func TestDeclaredVsSpecWidths(t *testing.T) {
 	}, func(c widthCase) bool { return c.Spec >= 2 })
 }
 
+// ---- the buffer format MS-CIFS requires for a string field (quoted in the source's field comments) ---------------
+//
+// buffer-format-strings judges the SMB_STRING type, whose format the caller picks. Which format a command
+// puts in front of each of its strings is stated by MS-CIFS per field ("BufferFormat (1 byte): This field
+// MUST be 0x04"); where the source quotes that sentence in the doc comment of the string field, the byte
+// in front of the field's content (located by marking) is compared with it. Fields without such a comment
+// are not judged (the specification is not available offline).
+
+type formatCase struct {
+	Struct string `json:"struct"`
+	Field  string `json:"field"`
+	Spec   uint8  `json:"spec_format"`
+}
+
+var formatRe = regexp.MustCompile(`BufferFormat\d* \(1 byte\):[^:]*?MUST\s+be\s+0x([0-9A-Fa-f]{2})`)
+
+func specFormats() []formatCase {
+	dir := filepath.Join(repoRoot(), "network/smb/smb_v10/message/commands")
+	fset := token.NewFileSet()
+	pkgs, err := parser.ParseDir(fset, dir, func(fi os.FileInfo) bool { return !strings.HasSuffix(fi.Name(), "_test.go") }, parser.ParseComments)
+	if err != nil {
+		return nil
+	}
+	var out []formatCase
+	for _, pkg := range pkgs {
+		for _, file := range pkg.Files {
+			ast.Inspect(file, func(n ast.Node) bool {
+				ts, ok := n.(*ast.TypeSpec)
+				if !ok {
+					return true
+				}
+				st, ok := ts.Type.(*ast.StructType)
+				if !ok {
+					return true
+				}
+				e, reachable := smbgen.ByName(ts.Name.Name)
+				if !reachable {
+					return true
+				}
+				rt := reflect.TypeOf(smbgen.New(e)).Elem()
+				for _, f := range st.Fields.List {
+					if f.Doc == nil || len(f.Names) != 1 {
+						continue
+					}
+					rf, ok := rt.FieldByName(f.Names[0].Name)
+					if !ok || !smbgen.IsByteField(rf.Type) || rf.Type.Kind() == reflect.Slice {
+						continue
+					}
+					var doc []string
+					for _, l := range f.Doc.List {
+						doc = append(doc, strings.TrimSpace(strings.TrimPrefix(l.Text, "//")))
+					}
+					if m := formatRe.FindStringSubmatch(strings.Join(doc, " ")); m != nil {
+						v, _ := strconv.ParseUint(m[1], 16, 8)
+						out = append(out, formatCase{ts.Name.Name, f.Names[0].Name, uint8(v)})
+					}
+				}
+				return true
+			})
+		}
+	}
+	sort.Slice(out, func(i, j int) bool { return out[i].Struct+"."+out[i].Field < out[j].Struct+"."+out[j].Field })
+	return out
+}
+
+// formatByte encodes the structure with the field's BufferFormat member set to set and returns the byte
+// that introduces the field's content (ok false: no well-defined place, C04's subject).
+func formatByte(c formatCase, set uint8) (b uint8, detail string, ok bool) {
+	e, _ := smbgen.ByName(c.Struct)
+	cmd := smbgen.New(e)
+	fv := reflect.ValueOf(cmd).Elem().FieldByName(c.Field)
+	str := fv
+	if fv.Type().String() == "types.OEM_STRING" {
+		str = fv.FieldByName("SMB_STRING")
+	}
+	str.FieldByName("BufferFormat").SetUint(uint64(set))
+	smbgen.SetContent(fv, []byte("NAME.EXT"))
+	smbgen.ApplyRelations(cmd)
+	sl := smbgen.MarkVar(e, smbgen.Snapshot(cmd), c.Field)
+	if sl.ProblemKind != "" {
+		return 0, "", false
+	}
+	at := sl.Start - 1
+	if c.Spec == 1 || c.Spec == 3 || c.Spec == 5 {
+		at = sl.Start - 3 // format byte, 16-bit length, content
+	}
+	if at < 0 {
+		return 0, "", false
+	}
+	return sl.Enc[at], fmt.Sprintf("content at %d introduced by %x", sl.Start, sl.Enc[at:sl.Start]), true
+}
+
+// The BufferFormat member of a string is itself a field value. Some commands overwrite it when they
+// encode (they decide the format: it must be the one MS-CIFS requires), others emit what the caller
+// put there (then the required format is the caller's to set, and it must come out unchanged).
+func checkFieldFormat(c formatCase) []vf.Finding {
+	if _, ok := smbgen.ByName(c.Struct); !ok {
+		return []vf.Finding{vf.F("harness", "bad-case", "unknown structure %s", c.Struct)}
+	}
+	subject := c.Struct + "." + c.Field
+	got, detail, ok := formatByte(c, c.Spec)
+	if !ok {
+		return nil
+	}
+	if got != c.Spec {
+		return []vf.Finding{vf.F(subject, "buffer-format-differs-from-ms-cifs", "BufferFormat %#02x as MS-CIFS requires: %s", c.Spec, detail)}
+	}
+	// a caller that sets another format of the same framing gets either that format or the required one
+	alt := map[uint8]uint8{1: 5, 5: 1, 2: 4, 4: 2}[c.Spec]
+	if alt == 0 {
+		return nil
+	}
+	if got, detail, ok := formatByte(c, alt); ok && got != alt && got != c.Spec {
+		return []vf.Finding{vf.F(subject, "buffer-format-differs-from-ms-cifs", "BufferFormat set to %#02x, MS-CIFS requires %#02x: %s", alt, c.Spec, detail)}
+	}
+	return nil
+}
+
+func TestFieldBufferFormats(t *testing.T) {
+	s := vf.Begin(t, P, "buffer-format-per-field")
+	s.SetExhaustive()
+	fc := specFormats()
+	s.Note("%d string fields carry the MS-CIFS buffer format in their doc comment", len(fc))
+	if len(fc) < 12 {
+		t.Fatalf("INFRA: only %d buffer-format comments found: source enumeration broken", len(fc))
+	}
+	vf.Enum(s, func(yield func(formatCase)) {
+		for _, c := range fc {
+			yield(c)
+		}
+	}, checkFieldFormat, nil)
+}
+
 // ---- widths on the wire: a field owns exactly as many bytes as its type is wide --------------------------------
 //
 // Marking (encode-vs-ref) sees the bytes that change with the field's value; a USHORT emitted as four
@@ -530,7 +959,53 @@ func checkWireWidths(c layoutCase) []vf.Finding {
 			fs = append(fs, vf.F(c.Struct+"."+a.Name, "occupies-more-bytes-than-its-type", "%d-byte type at %d, next field %s at %d (%d bytes of count fields between): %d bytes unaccounted for", a.Width, a.Start, b.Name, b.Start, b.Between, extra))
 		}
 	}
-	return fs
+	more, _ := checkBlockTotals(e, c)
+	return append(fs, more...)
+}
+
+// The field that ends a block has no successor to give a surplus away. For the parameter block the
+// word count does: the parameter block is exactly its fields (after the AndX block in AndX structures),
+// so when every field that lies in it is a fixed-width one, twice the word count equals the sum of the
+// widths of their types (an odd sum is carried in one more word). Which fields lie in the parameter
+// block is found by locating them (smbgen.Locate: marking, count fields through their buffers); fields
+// that are not emitted in this assignment occupy nothing. Structures with a list or a byte field in the
+// parameter block, or with a field whose slot is ill-defined, are left out (counted). The last
+// declared field, when it is a fixed-width field in the data block, must end where the message ends.
+func checkBlockTotals(e smbgen.Entry, c layoutCase) (fs []vf.Finding, status string) {
+	l, ok := smbgen.Locate(e, c.Fields)
+	if !ok {
+		return nil, "word-count-not-judged:does-not-encode"
+	}
+	for _, sk := range l.Skipped {
+		switch sk.Why {
+		case "absent", "not-emitted", "list-in-data-block":
+		default:
+			return nil, "word-count-not-judged:" + sk.Why
+		}
+	}
+	sum := 0
+	if e.AndX {
+		sum = 4
+	}
+	for _, f := range l.Locs {
+		if f.Start >= l.ParamEnd {
+			continue
+		}
+		if f.Class == "bytes" {
+			return nil, "word-count-not-judged:byte-field-in-parameter-block"
+		}
+		sum += f.TypeWidth
+	}
+	if wc := int(l.Enc[0]); 2*wc != sum+sum%2 {
+		fs = append(fs, vf.F(c.Struct, "word-count-differs-from-declared-widths", "%d parameter words, the types of the fields in the parameter block add up to %d bytes", wc, sum))
+	}
+	own := smbgen.OwnFields(smbgen.New(e))
+	if n := len(l.Locs); n > 0 && len(own) > 0 && l.Locs[n-1].Name == own[len(own)-1].Name && l.Locs[n-1].Class != "bytes" && l.Locs[n-1].Start >= l.ParamEnd+2 {
+		if last := l.Locs[n-1]; last.Start+last.TypeWidth != len(l.Enc) {
+			fs = append(fs, vf.F(c.Struct+"."+last.Name, "occupies-more-bytes-than-its-type", "%d-byte type at %d is the last field, the message ends at %d", last.TypeWidth, last.Start, len(l.Enc)))
+		}
+	}
+	return fs, "word-count-judged"
 }
 
 func TestWireWidths(t *testing.T) {
@@ -543,9 +1018,15 @@ func TestWireWidths(t *testing.T) {
 		idx++
 		e, _ := smbgen.ByName(name)
 		cmd := smbgen.New(e)
-		smbgen.Fill(t, cmd, smbgen.Options{MaxBytes: 8})
+		smbgen.Fill(t, cmd, smbgen.Options{MaxBytes: 8, MinBytes: 1, MinElems: 1})
 		return layoutCase{name, smbgen.Snapshot(cmd)}
-	}, checkWireWidths, func(c layoutCase) bool { return len(c.Fields) >= 2 })
+	}, func(c layoutCase) []vf.Finding {
+		if e, ok := smbgen.ByName(c.Struct); ok {
+			_, st := checkBlockTotals(e, c)
+			s.Class(st)
+		}
+		return checkWireWidths(c)
+	}, func(c layoutCase) bool { return len(c.Fields) >= 2 })
 }
 
 // ---- integers nested in wire types and in slices -----------------------------------------------------------
@@ -593,16 +1074,54 @@ func intFields(v reflect.Value) (out []string) {
 	return
 }
 
-func setInt(f reflect.Value, le []byte) {
-	var x uint64
-	for i := len(le) - 1; i >= 0; i-- {
-		x = x<<8 | uint64(le[i])
+// markableFields: the multi-byte integer members plus the members that are themselves fixed-width
+// wire types (the packed date word and the time of a directory-information entry).
+func markableFields(v reflect.Value) (out []string) {
+	out = intFields(v)
+	for i := 0; i < v.NumField(); i++ {
+		f := v.Type().Field(i)
+		if f.IsExported() && f.Type.Kind() == reflect.Struct && smbgen.FixedWidth(f.Type) >= 2 {
+			out = append(out, f.Name)
+		}
 	}
-	if f.Kind() >= reflect.Int && f.Kind() <= reflect.Int64 {
-		f.SetInt(int64(x))
-	} else {
-		f.SetUint(x)
+	return
+}
+
+// markNested writes the little-endian pattern p (and its complement in a second copy) into member field
+// of a wire type and returns the slot the difference of the two encodings defines.
+func markNested(nt nestedType, field string, p []byte) (lo, w int, e1 []byte, fs []vf.Finding) {
+	subject := nt.name + "." + field
+	v1, v2 := nt.mk(), nt.mk()
+	f1, f2 := reflect.ValueOf(v1).Elem().FieldByName(field), reflect.ValueOf(v2).Elem().FieldByName(field)
+	w = smbgen.FixedWidth(f1.Type())
+	le := []byte(p[:w])
+	inv := make([]byte, w)
+	for i := range inv {
+		inv[i] = ^le[i]
 	}
+	smbgen.SetPattern(f1, le)
+	smbgen.SetPattern(f2, inv)
+	e1, err1 := marshalAny(v1)
+	e2, err2 := marshalAny(v2)
+	if err1 != nil || err2 != nil || len(e1) != len(e2) {
+		return -1, w, nil, []vf.Finding{vf.F(subject, "marshal-error", "%v / %v (%d vs %d bytes)", err1, err2, len(e1), len(e2))}
+	}
+	lo, hi := -1, -1
+	for i := range e1 {
+		if e1[i] != e2[i] {
+			if lo < 0 {
+				lo = i
+			}
+			hi = i
+		}
+	}
+	if lo < 0 {
+		return -1, w, e1, []vf.Finding{vf.F(subject, "field-not-emitted", "changing every byte of the field leaves the %d-byte encoding unchanged", len(e1))}
+	}
+	if hi-lo+1 != w {
+		return -1, w, e1, []vf.Finding{vf.F(subject, "wrong-width", "slot of %d bytes for a %d-byte type", hi-lo+1, w)}
+	}
+	return lo, w, e1, nil
 }
 
 func marshalAny(v interface{}) (b []byte, err error) {
@@ -687,41 +1206,17 @@ func checkNested(c nestedCase) []vf.Finding {
 	if nt == nil {
 		return []vf.Finding{vf.F("harness", "bad-case", "unknown type %s", c.Type)}
 	}
-	v1, v2 := nt.mk(), nt.mk()
-	f1, f2 := reflect.ValueOf(v1).Elem().FieldByName(c.Field), reflect.ValueOf(v2).Elem().FieldByName(c.Field)
-	w := int(f1.Type().Size())
+	lo, w, e1, fs := markNested(*nt, c.Field, c.Pattern)
+	if fs != nil {
+		return fs
+	}
 	le := []byte(c.Pattern[:w])
-	inv := make([]byte, w)
-	for i := range inv {
-		inv[i] = ^le[i]
-	}
-	setInt(f1, le)
-	setInt(f2, inv)
-	e1, err1 := marshalAny(v1)
-	e2, err2 := marshalAny(v2)
-	if err1 != nil || err2 != nil || len(e1) != len(e2) {
-		return []vf.Finding{vf.F(subject, "marshal-error", "%v / %v (%d vs %d bytes)", err1, err2, len(e1), len(e2))}
-	}
-	lo, hi := -1, -1
-	for i := range e1 {
-		if e1[i] != e2[i] {
-			if lo < 0 {
-				lo = i
-			}
-			hi = i
-		}
-	}
-	if lo < 0 {
-		return []vf.Finding{vf.F(subject, "field-not-emitted", "changing every byte of the field leaves the %d-byte encoding unchanged", len(e1))}
-	}
-	if hi-lo+1 != w {
-		return []vf.Finding{vf.F(subject, "wrong-width", "slot of %d bytes for a %d-byte type", hi-lo+1, w)}
-	}
-	got := e1[lo : hi+1]
+	got := e1[lo : lo+w]
 	if bytes.Equal(got, le) {
 		return nil
 	}
-	if bytes.Equal(got, reversedPerElement(le, w)) {
+	ft, _ := reflect.TypeOf(nt.mk()).Elem().FieldByName(c.Field)
+	if bytes.Equal(got, reversedPerElement(le, elemWidth(ft.Type))) {
 		return []vf.Finding{vf.F(subject, "byte-reversed-in-own-slot", "pattern %x emitted as %x", le, got)}
 	}
 	return []vf.Finding{vf.F(subject, "other-encoding", "emitted %x, MS-CIFS little-endian is %x", got, le)}
@@ -731,7 +1226,7 @@ func TestNestedIntegers(t *testing.T) {
 	s := vf.Begin(t, P, "nested-integers")
 	var targets [][2]string
 	for _, nt := range nestedTypes() {
-		for _, f := range intFields(reflect.ValueOf(nt.mk()).Elem()) {
+		for _, f := range markableFields(reflect.ValueOf(nt.mk()).Elem()) {
 			targets = append(targets, [2]string{nt.name, f})
 		}
 	}
